@@ -23,6 +23,8 @@ func main() {
 	switch os.Args[1] {
 	case "pool":
 		poolMode(os.Args[2:])
+	case "cpool":
+		cpoolMode(os.Args[2:])
 	case "prog":
 		for i, src := range templates {
 			runProg(fmt.Sprintf("template%02d", i), src)
